@@ -42,20 +42,23 @@ BufAfter(pre, plen) == IF WriteOk(plen) THEN pre + 2 + plen ELSE pre
 (* The mutation plan *)
 Kinds == <<"msg", "fail", "pkt">>          \* wire message | failure message | padded onion failure packet
 Ops == <<"valid", "trunc-1", "trunc", "trunc+1", "len-1", "len+1",
-         "tail-odd", "tail-even", "tail-unsorted", "tail-nonmin", "flip", "raw", "ext-odd", "len-max">>
+         "tail-odd", "tail-even", "tail-unsorted", "tail-nonmin", "flip", "raw", "ext-odd", "len-max", "var-bound">>
 Poss == <<"-", "head", "mid", "tail", "short", "medium", "long">>
 
 IndexOf(seq, x) == CHOOSE i \in 1..Len(seq) : seq[i] = x
 
 \* len-1/len+1: a 2-byte field whose value is the size of the next read; len-max: any 2-byte field := 0xffff
-PosOf(op) == CASE op \in {"trunc-1", "trunc", "trunc+1", "flip", "len-max"} -> {"head", "mid", "tail"}
+\* var-bound: not a byte mutation either - one variable-length field of the generated VALUE (first/middle/last of
+\* them; for an address list: a DNS address at the first/middle/last list position) is resized to a boundary
+\* length (1, 2^8-1, 2^8, 2^8+1, the maximum that fits; DNS host names 1, 252..255); the repetitions cycle the lengths
+PosOf(op) == CASE op \in {"trunc-1", "trunc", "trunc+1", "flip", "len-max", "var-bound"} -> {"head", "mid", "tail"}
                [] op \in {"len-1", "len+1"}                      -> {"head", "tail"}
                [] op = "raw"                                     -> {"short", "medium", "long"}
                [] OTHER                                          -> {"-"}
 \* ext-odd: not a byte mutation - the generated VALUE gets one more unknown odd record in its extension
 \* data (canonical position) before it is encoded
 OpsOf(kind) == CASE kind = "pkt"  -> {"valid", "trunc-1", "trunc", "trunc+1", "len-1", "len+1", "flip", "raw", "len-max"}
-                 [] kind = "fail" -> {Ops[i] : i \in 1..Len(Ops)} \ {"ext-odd"}
+                 [] kind = "fail" -> {Ops[i] : i \in 1..Len(Ops)} \ {"ext-odd", "var-bound"}
                  [] OTHER         -> {Ops[i] : i \in 1..Len(Ops)}
 TypesOf(kind) == IF kind = "msg" THEN MsgTypes ELSE FailCodes
 
@@ -85,7 +88,7 @@ CONSTANTS AllocFactor, AllocSlack
 Totality(o)  == o.pan = 0 /\ o.hang = 0 /\ o.alloc <= AllocSlack + AllocFactor * o.ilen
 Bound(o)     == o.e1 = 1 => o.e1len <= MaxMsg
 Fixpoint(o)  == o.d1 = 1 => (o.e1 = 1 /\ o.d2 = 1 /\ o.e2 = 1 /\ o.fix = 1)
-RoundTrip(o) == o.op = "valid" => (o.d1 = 1 /\ o.veq = 1 /\ o.same = 1 /\ o.ilen <= MaxMsg)
+RoundTrip(o) == o.op \in {"valid", "var-bound"} => (o.d1 = 1 /\ o.veq = 1 /\ o.same = 1 /\ o.ilen <= MaxMsg)
 \* a well-formed value carrying an unknown odd record in its extension data comes back equal, byte-identically
 \* (bytes appended to an encoding are only subject to the fixpoint law: a type without an extension field
 \* may drop them, and an unsorted extension may be re-sorted)
